@@ -36,13 +36,15 @@ NILIF == V(<<"nil">>, "nilif", TRUE, "", <<>>, <<>>)
 FailV(kind, msg) == V(<<kind>>, kind, FALSE, msg, <<>>, <<>>)      \* kind \in {"err", "panic"}
 IsFail(v) == v.k \in {"err", "panic"}
 
-MapToks == {"map_string", "map_int", "map_bool", "map_named", "map_any"}
+MapToks == {"map_string", "map_int", "map_bool", "map_named", "map_any", "map_skey", "map_okey"}
 ArrToks == {"arr1", "arr2"}
 Ctors == {"ptr", "slice", "st", "nil", "err", "panic"} \cup MapToks \cup ArrToks
 KeyTypeOf(tok) == CASE tok = "map_string" -> <<"string">> [] tok = "map_int" -> <<"int">> [] tok = "map_bool" -> <<"bool">>
                     [] tok = "map_named" -> <<"named">> [] tok = "map_any" -> <<"any">>
+                    [] tok = "map_skey" -> <<"skey">> [] tok = "map_okey" -> <<"okey">>
 MapTokOf(kt) == CASE kt = <<"string">> -> "map_string" [] kt = <<"int">> -> "map_int" [] kt = <<"bool">> -> "map_bool"
-                  [] kt = <<"named">> -> "map_named" [] kt = <<"any">> -> "map_any" [] OTHER -> "map_other"
+                  [] kt = <<"named">> -> "map_named" [] kt = <<"any">> -> "map_any"
+                  [] kt = <<"skey">> -> "map_skey" [] kt = <<"okey">> -> "map_okey" [] OTHER -> "map_other"
 
 PtrDepth(t) == IF \A i \in 1..Len(t) : t[i] = "ptr" THEN Len(t)
                ELSE (CHOOSE i \in 1..Len(t) : t[i] # "ptr" /\ \A j \in 1..(i - 1) : t[j] = "ptr") - 1
@@ -69,13 +71,28 @@ ErrIS(m) == [EmptyIS EXCEPT !.err = m]
 FirstErr(iss) == IF \E i \in 1..Len(iss) : iss[i].err # ""
                  THEN iss[CHOOSE i \in 1..Len(iss) : iss[i].err # "" /\ \A j \in 1..(i - 1) : iss[j].err = ""].err ELSE ""
 
-(* map keys travel as sonic.MarshalString(key) (:215): strings and named strings are quoted, numbers / booleans bare.   *)
-KeyJson(key) == [q |-> key.kt \in {"string", "named"}, kv |-> key.kv]
-(* ... and come back through sonic.UnmarshalString into a fresh value of the STATIC key type (:333-337): for `any` the   *)
-(* JSON decides: string / bool / float64.                                                                               *)
-KeyDec(kty, j) == IF kty = <<"any">>
-                  THEN [kt |-> IF j.q THEN "string" ELSE IF j.kv \in {"true", "false"} THEN "bool" ELSE "float64", kv |-> j.kv]
-                  ELSE [kt |-> kty[1], kv |-> j.kv]
+(* Map keys.  A key is [kt, kv, ka, kb]: basic / named kinds carry their value in kv; the two registered STRUCT key kinds   *)
+(*   "skey"  struct{A string; B int}                      (JSON always lists both fields)                               *)
+(*   "okey"  struct{A string `omitempty`; B int `omitempty`} (a zero field is left out of the JSON text)                 *)
+(* carry their fields in ka / kb (zero: "" / "0").                                                                      *)
+K(kt, kv) == [kt |-> kt, kv |-> kv, ka |-> "", kb |-> ""]
+SK(kt, a, b) == [kt |-> kt, kv |-> "", ka |-> a, kb |-> b]
+StructKeyKinds == {"skey", "okey"}
+(* keys travel as sonic.MarshalString(key) (:215): strings and named strings quoted, numbers / booleans bare, struct keys   *)
+(* as a JSON object that lists field A (B) iff ha (hb)                                                                  *)
+KeyJson(key) == [q |-> key.kt \in {"string", "named"}, kv |-> key.kv, ka |-> key.ka, kb |-> key.kb,
+                 ha |-> key.kt = "skey" \/ (key.kt = "okey" /\ key.ka # ""), hb |-> key.kt = "skey" \/ (key.kt = "okey" /\ key.kb # "0")]
+(* ... and come back through sonic.UnmarshalString into a holder `reflect.New(rkt)` of the STATIC key type that is        *)
+(* allocated FOR EACH ENTRY (:332-337): for `any` the JSON decides string / bool / float64; for a struct key sonic only    *)
+(* writes the fields present in the text, the others keep what the holder had -- the zero value, because it is fresh.      *)
+ZeroHolder(kt) == SK(kt, "", "0")
+KeyDecInto(holder, kty, j) ==
+  IF kty = <<"any">>
+  THEN K(IF j.q THEN "string" ELSE IF j.kv \in {"true", "false"} THEN "bool" ELSE "float64", j.kv)
+  ELSE IF kty[1] \in StructKeyKinds
+  THEN SK(kty[1], IF j.ha THEN j.ka ELSE holder.ka, IF j.hb THEN j.kb ELSE holder.kb)
+  ELSE K(kty[1], j.kv)
+KeyDec(kty, j) == KeyDecInto(ZeroHolder(kty[1]), kty, j)
 
 (* fx: which of the proposed repairs are applied  [nilmulti, ptrcont : BOOLEAN]  (fixes/D9-serialization-pointers.diff) *)
 AsIs == [nilmulti |-> FALSE, ptrcont |-> FALSE]
@@ -148,8 +165,8 @@ FirstFail(vs) == vs[CHOOSE i \in 1..Len(vs) : IsFail(vs[i]) /\ \A j \in 1..(i - 
 AnyFail(vs) == \E i \in 1..Len(vs) : IsFail(vs[i])
 
 (* a nil pointer to a struct travels as JSON null and is decoded by sonic INTO THE STRUCT TYPE (:277-278); sonic refuses, *)
-(* even for null, struct types with a field of map type keyed by bool or interface (observed; an error, so loud)       *)
-SonicRejects(t) == t[1] = "st" /\ \E i \in 1..Len(t) : t[i] \in {"map_bool", "map_any"}
+(* even for null, struct types with a field of map type keyed by bool, interface or a struct (observed; an error, so loud)       *)
+SonicRejects(t) == t[1] = "st" /\ \E i \in 1..Len(t) : t[i] \in {"map_bool", "map_any", "map_skey", "map_okey"}
 RECURSIVE Dec(_, _)
 Dec(is, fx) ==
   IF is.isnil THEN NILIF                                                \* :267-269
